@@ -79,7 +79,7 @@ CLAIMED["C18"] = (
 CLAIMED["C02"] = (
     "model_checking",
     "bounded-exhaustive enumeration of path sets in every arrival order plus explicit-state BFS over single-prefix histories of the real Table, against a reference comparator written from the statement",
-    "All ordered pairs of a 1152-kind IPv4 product and a 384-kind EVPN product (2 colliding values per decision step: LLGR-stale flag/community, LOCAL_PREF, 9 AS_PATH shapes up to 510 hops, ORIGIN, 5 roles, GR-stale, CLUSTER_LIST, router-id/ORIGINATOR_ID incl. complete ties, eligibility, MAC mobility) and triples over a cover, each inserted in every arrival order into a real Table; BFS over 7 packs of histories (insert/replace/remove/drop/restale/restale_llgr/purges/next-hop flips with session restarts). After every insert/step: ranked list sorted by the reference and containing exactly the eligible paths, best is reference-maximal, ecmp_paths is the tie prefix, Global and RsLocal views agree, result equals a from-scratch table of the current path set. Both dev (overflow checks) and release profiles.",
+    "All ordered pairs of a 1152-kind IPv4 product and a 640-kind EVPN product (2 colliding values per decision step: LLGR-stale flag/community, LOCAL_PREF, 9 AS_PATH shapes up to 510 hops, ORIGIN, 5 roles, GR-stale, CLUSTER_LIST, router-id/ORIGINATOR_ID incl. complete ties, eligibility, MAC mobility alone / embedded among other EVPN extended communities / absent while other EVPN communities are present) and triples over a cover, each inserted in every arrival order into a real Table; BFS over 7 packs of histories (insert/replace/remove/drop/restale/restale_llgr/purges/next-hop flips with session restarts). After every insert/step: ranked list sorted by the reference and containing exactly the eligible paths, best is reference-maximal, ecmp_paths is the tie prefix, Global and RsLocal views agree, result equals a from-scratch table of the current path set. Both dev (overflow checks) and release profiles.",
     "Table API level only (the daemon's use of the ranking is C01/C20). Both readings of MAC-mobility present-vs-absent accepted. Built by a helper sub-agent from DESIGN §5 C02; reviewed through its findings (6 defects, all repaired).",
     "DESIGN.md §5 C02",
 )
